@@ -452,6 +452,8 @@ impl VisitMut for TsEraser {
     fn visit_mut_function(&mut self, n: &mut Function) {
         n.return_type = None;
         n.type_params = None;
+        // the TS `this` pseudo-parameter
+        n.params.retain(|p| !matches!(&p.pat, Pat::Ident(b) if b.id.sym == "this"));
         n.visit_mut_children_with(self);
     }
     fn visit_mut_arrow_expr(&mut self, n: &mut ArrowExpr) {
@@ -513,6 +515,88 @@ impl VisitMut for TsEraser {
             }
         }
         e.visit_mut_children_with(self);
+    }
+}
+
+/// Replace every JSX expression by an array literal of the expressions written inside it
+/// (attribute values, spread arguments, children), each staying in the function / class context
+/// it was written in. The result is a JSX-free module that has an early error exactly when the
+/// input's non-JSX parts have one.
+pub struct JsxFlattener;
+
+impl JsxFlattener {
+    fn arr(items: Vec<Expr>) -> Expr {
+        Expr::Array(ArrayLit {
+            span: Default::default(),
+            elems: items
+                .into_iter()
+                .map(|e| Some(ExprOrSpread { spread: None, expr: Box::new(e) }))
+                .collect(),
+        })
+    }
+    fn children(ch: &[JSXElementChild], out: &mut Vec<Expr>) {
+        for c in ch {
+            match c {
+                JSXElementChild::JSXExprContainer(JSXExprContainer { expr: JSXExpr::Expr(e), .. }) => {
+                    out.push((**e).clone())
+                }
+                JSXElementChild::JSXSpreadChild(s) => out.push((*s.expr).clone()),
+                JSXElementChild::JSXElement(el) => out.push(Expr::JSXElement(el.clone())),
+                JSXElementChild::JSXFragment(f) => out.push(Expr::JSXFragment(f.clone())),
+                _ => {}
+            }
+        }
+    }
+    fn element(el: &JSXElement) -> Expr {
+        let mut out = vec![];
+        for a in &el.opening.attrs {
+            match a {
+                JSXAttrOrSpread::SpreadElement(s) => out.push((*s.expr).clone()),
+                JSXAttrOrSpread::JSXAttr(a) => match &a.value {
+                    Some(JSXAttrValue::JSXExprContainer(JSXExprContainer { expr: JSXExpr::Expr(e), .. })) => {
+                        out.push((**e).clone())
+                    }
+                    Some(JSXAttrValue::JSXElement(e)) => out.push(Expr::JSXElement(e.clone())),
+                    Some(JSXAttrValue::JSXFragment(f)) => out.push(Expr::JSXFragment(f.clone())),
+                    _ => {}
+                },
+            }
+        }
+        Self::children(&el.children, &mut out);
+        Self::arr(out)
+    }
+}
+
+impl VisitMut for JsxFlattener {
+    fn visit_mut_expr(&mut self, e: &mut Expr) {
+        match e {
+            Expr::JSXElement(el) => *e = Self::element(el),
+            Expr::JSXFragment(f) => {
+                let mut out = vec![];
+                Self::children(&f.children, &mut out);
+                *e = Self::arr(out);
+            }
+            Expr::JSXMember(..) | Expr::JSXNamespacedName(..) | Expr::JSXEmpty(..) => *e = Self::arr(vec![]),
+            _ => {}
+        }
+        e.visit_mut_children_with(self);
+    }
+}
+
+impl Transformed {
+    /// (flattened + erased input, erased output) printed for a syntax check by another engine
+    pub fn js_for_syntax_check(&self) -> Option<(String, String)> {
+        let raw = self.raw.as_ref()?;
+        let mut inp = self.input.clone();
+        inp.visit_mut_with(&mut JsxFlattener);
+        let mut out = raw.clone();
+        if self.lang != Lang::Jsx {
+            inp.visit_mut_with(&mut TsEraser);
+            out.visit_mut_with(&mut TsEraser);
+        }
+        let a = self.print_final_nocomments(&inp).ok()?;
+        let b = self.print_final_nocomments(&out).ok()?;
+        Some((a, b))
     }
 }
 
